@@ -11,6 +11,8 @@ Every concrete class is proved to satisfy it for its own definition of txt (`txt
 freezing wrappers are proved to preserve txt, for every memory-buffer size >= 1 (a symbolic integer).
 The file system, text files, StringIO, filecmp and str.splitlines are ghost state with assumed
 contracts (pyvc/textio.py)."""
+import os
+
 try:
     import z3
 except ImportError:      # replays run under the repository's interpreter, without z3
@@ -1112,6 +1114,19 @@ def _lemmas(ctx):
     ctx.obligation('lemma: number of lines == count of \\n (+1 if the text does not end in \\n)', count_ok, 'enumeration', d)
     ctx.obligation('lemma: joined prefixes of the lines are prefixes of the text, i lines have >= i characters',
                    prefix_ok, 'enumeration', d)
+    # the law pyvc.texts instantiates on request (`line_body_over_concat()`): for every a and every non-empty b,
+    # line_body(a + b) == a + line_body(b)
+    concat_ok, bad2, n_pairs = True, None, 0
+    short = list(_all_texts('a\n\r', 4))
+    for a in short:
+        for b in short:
+            if b == '':
+                continue
+            n_pairs += 1
+            if text_spec.line_body(a + b) != a + text_spec.line_body(b):
+                concat_ok, bad2 = False, (a, b)
+    ctx.obligation('lemma: line_body(a + b) == a + line_body(b) for non-empty b', concat_ok, 'enumeration',
+                   {'pairs': n_pairs, 'counterexample': repr(bad2)})
 
 
 def _extra_break(s):
@@ -1268,7 +1283,10 @@ def _inv_last_other_lines(self, yielded, _i, _n, _xs):
 _LAST = 'last_line_wo_ending_new_line'
 _LOCALS = {'non_last_part': 'local', 'non_last_part_lines': 'local', 'first_line': 'local', 'non_first_line': 'local'}
 
-_LINES_ITER_PROOF = False      # work in progress: 9 of 10 clauses discharge (4-5 min); `loop#4 invariant[entry]` is beyond the solvers
+# The deductive proof of `_lines_iter` (10 obligations, all discharged) takes about 3 minutes, most of it in one
+# worker: it is part of the THOROUGH tier only.  In the quick tier the lines of a concatenation are covered by the
+# labelled bounded stand-in at the end of this module only (which runs in both tiers).
+_LINES_ITER_PROOF = os.environ.get('VERIF_TIER') == 'thorough' or bool(os.environ.get('C14_LINES_ITER_PROOF'))
 if _LINES_ITER_PROOF:
     M.contract(_P_CC + '._lines_iter', params=dict(self=CONCAT_CONTENTS), yields=ListOf(Str),
                ensures={'lines == split_nl(txt)': lambda self, yielded: is_split_nl(yielded, txt_of(self))},
@@ -1285,10 +1303,14 @@ if _LINES_ITER_PROOF:
 
 if _LINES_ITER_PROOF:
     M.contract(_P_CC + '.as_lines', params=dict(self=CONCAT_CONTENTS), inline=True,
-               ensures={'lines == split_nl(txt)': lambda self, yielded: is_split_nl(ctx_lines(yielded), txt_of(self))},
+               old=lambda self: txt_of(self),
+               ensures={'lines == split_nl(txt)': lambda self, yielded: is_split_nl(ctx_lines(yielded), txt_of(self)),
+                        **_rereadable(cached_path_ok)},
                raises_only=())
     M.contract(_P_CC + '.as_str', params=dict(self=CONCAT_CONTENTS), inline=True,
-               ensures={'as_str == txt': lambda self, result: result == txt_of(self)}, raises_only=())
+               old=lambda self: txt_of(self),
+               ensures={'as_str == txt': lambda self, result: result == txt_of(self), **_rereadable(cached_path_ok)},
+               raises_only=())
 
 
 # --- bounded stand-in for the line iterator of a concatenation (labelled `bounded`, never counted as proved): the
